@@ -1179,11 +1179,12 @@ func loopCarried(info *types.Info, body *ast.BlockStmt, e ast.Expr) string {
 }
 
 // c18Reader: F57–F59, the scanner that reads a stream recording.
-//   F58: its token limit is raised explicitly (a point is as long as its fields are; the default 64 KiB ends the replay);
-//   F59: its split function is not bufio.ScanLines (which also drops a carriage return before the new line — data of a string
-//        field — while the continuation lines are joined with new lines only);
-//   F57: the result of the line-protocol parser is indexed only on paths where its length was tested (the parser returns no
-//        point and no error for a blank or comment line; the reader goroutine has no recover).
+//
+//	F58: its token limit is raised explicitly (a point is as long as its fields are; the default 64 KiB ends the replay);
+//	F59: its split function is not bufio.ScanLines (which also drops a carriage return before the new line — data of a string
+//	     field — while the continuation lines are joined with new lines only);
+//	F57: the result of the line-protocol parser is indexed only on paths where its length was tested (the parser returns no
+//	     point and no error for a blank or comment line; the reader goroutine has no recover).
 func c18Reader(c *core.Ctx, pkg *packages.Package) {
 	fn := c.Need("C18.reader", "", "", "readPointsFromIO")
 	if fn == nil {
